@@ -54,6 +54,10 @@ func tableConcat(L *LState) int {
 	sep := LString(L.OptString(2, ""))
 	i := L.OptInt(3, 1)
 	j := L.OptInt(4, tbl.Len())
+	if i > j {
+		L.Push(emptyLString)
+		return 1
+	}
 	if L.GetTop() == 3 {
 		if i > tbl.Len() || i < 1 {
 			L.Push(emptyLString)
@@ -78,7 +82,8 @@ func tableConcat(L *LState) int {
 			L.Push(sep)
 		}
 	}
-	L.Push(stringConcat(L, L.GetTop()-retbottom, L.reg.Top()-1))
+	// a single element is returned by stringConcat as it is: convert a number to its string
+	L.Push(LString(LVAsString(stringConcat(L, L.GetTop()-retbottom, L.reg.Top()-1))))
 	return 1
 }
 
